@@ -508,7 +508,7 @@ fn structural_texts(name: &str, text: &str, thorough: bool) -> Vec<(String, Stri
                     for len in lens {
                         // materialising a pool larger than 2^20 addresses at load time is a resource question, not claimed
                         let skip_v4 = under_apply_subnet && len < 12;
-                        for (fam, addr) in [("v4", "192.0.2.0"), ("v4hb", "192.0.2.77"), ("v6", "2001:db8::"), ("v6hb", "2001:db8::77"), ("v4zero", "0.0.0.0"), ("mapped", "::ffff:192.0.2.0")] {
+                        for (fam, addr) in [("v4", "192.0.2.0"), ("v4hb", "192.0.2.77"), ("v6", "2001:db8::"), ("v6hb", "2001:db8::77"), ("v4zero", "0.0.0.0"), ("mapped", "::ffff:192.0.2.0"), ("v4top", "255.255.255.255"), ("v4top2", "255.255.255.254"), ("v6top", "ffff:ffff:ffff:ffff:ffff:ffff:ffff:ffff")] {
                             if skip_v4 && fam.starts_with("v4") {
                                 continue;
                             }
@@ -724,7 +724,7 @@ pub fn run(tier: &str, replay: Option<Value>) -> ! {
     crate::common::clock::unset();
     rep.cov("evaluations", tally.loads.load(Ordering::Relaxed));
     rep.cov("distinct_nontrivial", tally.accepted.load(Ordering::Relaxed));
-    rep.cov("rule", "texts = shipped examples (man page .EX blocks, erbium.conf.example commented and uncommented) and a skeleton naming every remaining key and DHCP option type; structural sweep: every node <- 21 wrong-type/boundary values, every scalar <- 12 duration shapes, misspelt/upper-cased, every prefix-shaped scalar <- every length (quick: 0..34 and boundaries; thorough 0..255) x 6 address forms, every entry removed / key misspelt; byte sweep: every offset x {deletion, 17 structural octets}. Every accepted text is served (ACL decisions, RA build+serialise per interface, DISCOVER+REQUEST from 4 receiving addresses x 3 clients; route variants through the live DNS service). distinct_nontrivial = texts the loader accepted (and that were therefore served)");
+    rep.cov("rule", "texts = shipped examples (man page .EX blocks, erbium.conf.example commented and uncommented) and a skeleton naming every remaining key and DHCP option type; structural sweep: every node <- 21 wrong-type/boundary values, every scalar <- 12 duration shapes, misspelt/upper-cased, every prefix-shaped scalar <- every length (quick: 0..34 and boundaries; thorough 0..255) x 9 address forms (network, host bits set, zero, v4-mapped, top of the IPv4 / IPv6 space), every entry removed / key misspelt; byte sweep: every offset x {deletion, 17 structural octets}. Every accepted text is served (ACL decisions, RA build+serialise per interface, DISCOVER+REQUEST from 4 receiving addresses x 3 clients; route variants through the live DNS service). distinct_nontrivial = texts the loader accepted (and that were therefore served)");
     rep.cov("exhaustive", true);
     rep.cov("parts", json!({"structural_texts": n_struct, "byte_texts": n_bytes, "accepted_and_served": tally.accepted.load(Ordering::Relaxed), "serve_steps": tally.served.load(Ordering::Relaxed), "route_variants_served_live": n_dns}));
     rep.cov("outcome_classes", json!(classes));
